@@ -190,11 +190,16 @@ class SymSim(mosaik_api_v3.Simulator):
     def __init__(self):
         super().__init__(copy.deepcopy(BASE_META))
 
-    def init(self, sid, time_resolution, typ='event-based', any_inputs=False):
+    def init(self, sid, time_resolution, typ='event-based', any_inputs=False, hier=0):
         self.sid = sid
         self.typ = typ
+        self.hier = hier
         self.meta['type'] = typ
         m = self.meta['models']['M']
+        if hier:
+            # hierarchical entities: create() returns a parent whose children are of two model types; model X knows the single
+            # attribute 'zz' (which M does not have) and none of M's
+            self.meta['models']['X'] = {'public': False, 'params': [], 'attrs': ['zz']}
         if any_inputs:
             m['any_inputs'] = True
         if typ == 'hybrid':
@@ -207,6 +212,9 @@ class SymSim(mosaik_api_v3.Simulator):
         return self.meta
 
     def create(self, num, model):
+        if getattr(self, 'hier', 0):
+            kids = [{'eid': 'x', 'type': 'X'}, {'eid': 'e', 'type': 'M'}]
+            return [{'eid': 'p', 'type': model, 'children': kids if self.hier == 1 else kids[::-1]}]
         return [{'eid': eid, 'type': model} for eid in ('e', 'f', 'g')[:num]]
 
     def step(self, time, inputs, max_advance):
